@@ -32,13 +32,19 @@ FIELD_TYPES = {
     '_name': ('str',),
     '_id': ('str',),
     '_content_type': ('cls',),
+    # ValidationError.obj / Validation.errors: typing backed by the contracts of the validation layer
+    'obj': ('BaseSection', 'BaseProperty', 'BaseDocument'),
+    'errors': ('list',),
 }
+LIST_ITEM_TYPES = {'errors': ('ValidationError',)}
 # which classes carry which typed fields
 CLASS_TYPED_FIELDS = {
     'BaseSection': ('_sections', '_props', '_parent', '_name', '_id'),
     'BaseDocument': ('_sections', '_id'),
     'BaseProperty': ('_parent', '_values', '_name', '_id'),
     'SmartList': ('_content_type',),
+    'ValidationError': ('obj',),
+    'Validation': ('errors',),
 }
 PROP_PARENT = ('None', 'BaseSection')
 
@@ -101,31 +107,22 @@ class HeapExecutor(PureExecutor):
         return HEAP_DECLS
 
     # ------------------------------------------------------------------ heap access
+    # heap accessors never mutate the state: a missing key stands for the entry-state array, whose
+    # name is fixed (so that two branches that merely *read* a new field still have equal heaps)
     def H(self, st, field):
-        key = 'f:' + field
-        if key not in st.heap:
-            st.heap[key] = const('H0_' + field, AIV)
-        return st.heap[key]
+        return st.heap.get('f:' + field) or const('H0_' + field, AIV)
 
     def llen(self, st):
-        if 'llen' not in st.heap:
-            st.heap['llen'] = const('H0_llen', AI)
-        return st.heap['llen']
+        return st.heap.get('llen') or const('H0_llen', AI)
 
     def litem(self, st):
-        if 'litem' not in st.heap:
-            st.heap['litem'] = const('H0_litem', AIIV)
-        return st.heap['litem']
+        return st.heap.get('litem') or const('H0_litem', AIIV)
 
     def pos(self, st):
-        if 'g:pos' not in st.heap:
-            st.heap['g:pos'] = const('H0_pos', AI)
-        return st.heap['g:pos']
+        return st.heap.get('g:pos') or const('H0_pos', AI)
 
     def nxt(self, st):
-        if 'next' not in st.heap:
-            st.heap['next'] = const('H0_next', INT)
-        return st.heap['next']
+        return st.heap.get('next') or const('H0_next', INT)
 
     def rv(self, v):
         return Acc('rv', v)
@@ -359,6 +356,25 @@ class HeapExecutor(PureExecutor):
                         self.know(o, vv, refs)
         return out
 
+    def special_method(self, recv, name, args, kw, st, node):
+        """methods of constant dict tables extracted from the source"""
+        table = getattr(self, '_const_dicts', {}).get(recv)
+        if table is None:
+            return None
+        if name == 'items' and not args:
+            return [(st, VTuple(seq_of([VTuple(seq_of([k, v])) for k, v in table])))]
+        if name == 'keys' and not args:
+            return [(st, VTuple(seq_of([k for k, _ in table])))]
+        if name == 'values' and not args:
+            return [(st, VTuple(seq_of([v for _, v in table])))]
+        if name == 'get' and 1 <= len(args) <= 2:
+            default = args[1] if len(args) == 2 else VNONE
+            res = default
+            for k, v in reversed(table):
+                res = Ite(py_eq(args[0], k), v, res)
+            return [(st, res)]
+        raise Unsupported('method %s on a constant table at line %s' % (name, node.lineno))
+
     def field_may_be_unset(self, recv, name, st):
         """Fields of constructed objects are set (typing part of Inv); only objects under
         construction (allocated in this function) may have unset fields."""
@@ -384,6 +400,14 @@ class HeapExecutor(PureExecutor):
                         return v
         if isinstance(node, ast.Dict) and not node.keys:
             return tm.Ctor('VOpq', const('clsattr_%s_emptydict' % ci.name, INT))
+        if isinstance(node, ast.Dict) and all(isinstance(k, ast.Constant) for k in node.keys) \
+                and all(isinstance(v, ast.Constant) for v in node.values):
+            # constant table (format._args, format._map): an opaque value with a known content
+            name = 'constdict_%s_%d' % (ci.name, node.lineno)
+            v = tm.Ctor('VOpq', const(name, INT))
+            self._const_dicts = getattr(self, '_const_dicts', {})
+            self._const_dicts[v] = [(self.lit(k.value), self.lit(x.value)) for k, x in zip(node.keys, node.values)]
+            return v
         raise Unsupported('class attribute default %s' % ast.dump(node)[:60])
 
     # ------------------------------------------------------------------ attribute write
@@ -479,10 +503,7 @@ class HeapExecutor(PureExecutor):
         return st
 
     def G(self, st, name, sort):
-        key = 'g:' + name
-        if key not in st.heap:
-            st.heap[key] = const('H0_' + name, sort)
-        return st.heap[key]
+        return st.heap.get('g:' + name) or const('H0_' + name, sort)
 
     def typing_goal(self, v, kinds, st):
         alts = []
